@@ -2,6 +2,7 @@ package main
 
 import (
 	"go/types"
+	"reflect"
 	"strconv"
 	"strings"
 
@@ -132,7 +133,57 @@ func installStr(c *Ctx) {
 		}
 		return out
 	}
+	// strings.Split with a concrete one-byte separator over a symbolic string:
+	// branch per position on "is this byte the separator" (lengths stay concrete).
+	in["strings.Split"] = func(c *Ctx, a []Value) Value {
+		s, sep := a[0].(*Str), a[1].(*Str)
+		if cs, ok := s.concrete(); ok {
+			if csep, ok := sep.concrete(); ok {
+				return fromNative(reflect.ValueOf(strings.Split(cs, csep)))
+			}
+		}
+		if len(sep.b) != 1 || !sep.b[0].isC {
+			c.bypass = true
+			return c.call(c.curCallee, a)
+		}
+		arr := &Arr{}
+		cur := &Str{}
+		for _, b := range s.b {
+			if c.branch(Cmp("=", b, sep.b[0])) {
+				arr.e = append(arr.e, cur)
+				cur = &Str{}
+			} else {
+				cur = &Str{b: append(append([]*Term{}, cur.b...), b)}
+			}
+		}
+		arr.e = append(arr.e, cur)
+		return Slice{back: arr, len: len(arr.e), cap: len(arr.e)}
+	}
 	in["fmt.Sprintf"] = func(c *Ctx, a []Value) Value { return c.sprintf(a) }
+	in["fmt.Sprint"] = func(c *Ctx, a []Value) Value { return strConst("<opaque>") }
+	in["fmt.Sprintln"] = func(c *Ctx, a []Value) Value { return strConst("<opaque>\n") }
+	in["fmt.Printf"] = func(c *Ctx, a []Value) Value { return Tuple{BV(0, 64), Iface{}} }
+	in["fmt.Println"] = func(c *Ctx, a []Value) Value { return Tuple{BV(0, 64), Iface{}} }
+	in["fmt.Print"] = func(c *Ctx, a []Value) Value { return Tuple{BV(0, 64), Iface{}} }
+	writeTo := func(c *Ctx, w Iface, s *Str) Value {
+		if w.t == nil {
+			panic(&goPanic{what: "nil io.Writer", pos: c.cp()})
+		}
+		m := c.method(w.t, "Write")
+		if m == nil {
+			c.errf("Fprintf: no Write on %s", w.t)
+		}
+		arr := &Arr{e: make([]Value, len(s.b))}
+		for k, b := range s.b {
+			arr.e[k] = b
+		}
+		return c.call(m, []Value{w.v, Slice{back: arr, len: len(s.b), cap: len(s.b)}})
+	}
+	in["fmt.Fprintf"] = func(c *Ctx, a []Value) Value {
+		return writeTo(c, a[0].(Iface), c.sprintf(a[1:]).(*Str))
+	}
+	in["fmt.Fprint"] = func(c *Ctx, a []Value) Value { return writeTo(c, a[0].(Iface), strConst("<opaque>")) }
+	in["fmt.Fprintln"] = func(c *Ctx, a []Value) Value { return writeTo(c, a[0].(Iface), strConst("<opaque>\n")) }
 	in["fmt.Errorf"] = func(c *Ctx, a []Value) Value {
 		// keep %w chain: find first error arg
 		args := a[1].(Slice)
